@@ -46,7 +46,7 @@ MIN_REACH = {
     "resows_refused_for_their_shape": {"quick": 50, "thorough": 600},
     "crops_whose_function_is_not_saved": {"quick": 12, "thorough": 300},
     "crops_of_ten_and_more_batches": {"quick": 15, "thorough": 300},
-    "subsets_grown_from_a_generator_or_an_array_of_ids": {"quick": 40, "thorough": 800},
+    "subsets_grown_from_a_generator_or_an_array_of_ids": {"quick": 30, "thorough": 800},
     "pooled_grows_around_a_resow_that_replaced_the_function": {"quick": 12, "thorough": 200},
 }
 TIME_BUDGET = {"quick": 300, "thorough": 3000}
